@@ -114,6 +114,9 @@ func (pp *PathParams) loadAndParsePathParamsFiles() error {
 
 func (pp *PathParams) storePathParams(pathParams []*PathParam) error {
 	for _, pathParam := range pathParams {
+		if pathParam == nil {
+			return fmt.Errorf("path param entry is empty")
+		}
 		err := pp.addURLToTree(pathParam.URL)
 		if err != nil {
 			return err
